@@ -7,6 +7,9 @@ def jobs(tier):
     out = []
     for s, l in (((0, 1), (2, 1), (3, 0)) if tier == 'quick' else ((0, 0), (0, 1), (1, 1), (2, 0), (2, 1), (2, 2), (3, 0), (3, 1))):
         out.append(Job('receive-s%d-l%d' % (s, l), 'node_recv.cpp', 'h_c11_receive', [s, l], reach=['refused'], snippets=SN, timeout=1500, bounds='%d shards, %d ciphertext bytes' % (s, l)))
+    # a signed, admissible ANNOUNCE with an adversarial manifest (shard indices / total_shares header unrelated) through the real handle_announce
+    from props.C21 import SNA
+    out.append(Job('announce-s2', 'node_announce.cpp', 'h_c21_announce', [2, 0], reach=['admitted', 'refused'], snippets=SNA, timeout=3000, bounds='one ANNOUNCE through the real handle_announce: 2 shards, last shard index (0..15) and total_shares header (0..7) symbolic, assigned shard symbolic'))
     # control-plane request bytes through the whole daemon/ControlServer.cpp (recv_line, parse_request, handle_client and every handler)
     RW = {'^_ZNSt10filesystem7__cxx114path14_M_split_cmptsEv$': 'h_path_split_stub4', '?^_ZNSt10filesystem8absoluteERKNS_7__cxx114pathE$': 'h_fs_absolute4', '?^_ZNKSt10filesystem7__cxx114path11parent_pathEv$': 'h_fs_parent_empty4', '?^_ZNSt10filesystem8absoluteERKNS_7__cxx114pathERSt10error_code$': 'h_fs_absolute_ec4'}
     for n in ((0, 1) if tier == 'quick' else (0, 1, 2)):
